@@ -28,7 +28,7 @@ static unsigned char content[40000]; static size_t content_len;
 static char dirpath[300], filepath[400], outdir[300];
 
 /* ---- adversarial lines ---- */
-static char *LINES[64]; static int NLINES;
+static char *LINES[72]; static int NLINES;
 static void build_lines(void)
 {
   static const char *fixed[] = {
@@ -41,6 +41,9 @@ static void build_lines(void)
   l = malloc(9100); memset(l, 'k', 9000); strcpy(l + 9000, "=v"); LINES[NLINES++] = l;
   l = malloc(300); memset(l, ' ', 200); l[200] = 0; LINES[NLINES++] = l;
   l = malloc(9100); l[0] = '#'; memset(l + 1, 'c', 9000); l[9001] = 0; LINES[NLINES++] = l;
+  /* physical lines of exactly BUFSIZ-1, BUFSIZ and BUFSIZ+1 bytes (newline included): buffer-size boundaries of the line reader */
+  for (int tot = 8191; tot <= 8193; tot++) { l = malloc(8300); strcpy(l, "k="); memset(l + 2, 'y', (size_t)tot - 3); l[tot - 1] = 0; LINES[NLINES++] = l; }
+  l = malloc(8300); memset(l, ' ', 2); memset(l + 2, 'z', 8189); l[8191] = 0; LINES[NLINES++] = l;      /* continuation line of 8192 bytes */
 }
 
 /* items (one or two lines) that span the shapes: values present/absent, bare keys, repeated keys, re-opened and empty sections */
@@ -280,7 +283,8 @@ int main(int argc, char **argv)
   for (int c = 0; c < NCFG && complete; c++) { mc_tag = c; complete = mc_explore(gen, exec, 0, 0); }
   if (complete) mc_st->bound_completed = n1;
   if (complete && n2 > n1) {
-    for (int c = 0; c < 9 && complete; c++) { mc_tag = 100 + c; complete = mc_explore(gen, exec, 0, 0); }
+    int ncore = mc_opt.param[3] ? (int)mc_opt.param[3] : 9;
+    for (int c = 0; c < ncore && complete; c++) { mc_tag = 100 + c; complete = mc_explore(gen, exec, 0, 0); }
     if (complete) mc_st->bound_completed = n2;
   }
   mc_finish();
